@@ -147,6 +147,7 @@ func (ETHScenario) Execute(p kernel.Plan, rec *kernel.Rec) {
 			break
 		}
 	}
+	replicaCheck(rec, w.host, p.Cfg, "eth")
 	rec.AddSim(int64(w.now.Sub(start) / time.Second))
 }
 
